@@ -305,6 +305,18 @@ func (vc *VC) Assert(t Term) {
 	vc.asserts = append(vc.asserts, a)
 }
 
+// assertRaw adds an assertion even while a quantifier body is being built (global axioms).
+func (vc *VC) assertRaw(a string) {
+	if vc.seenAssert == nil {
+		vc.seenAssert = map[string]bool{}
+	}
+	if vc.seenAssert[a] {
+		return
+	}
+	vc.seenAssert[a] = true
+	vc.asserts = append(vc.asserts, a)
+}
+
 func (vc *VC) Watch(name string, t Term) {
 	for _, w := range vc.watch {
 		if w.Name == name {
@@ -375,7 +387,7 @@ func isHub(sym string) bool {
 		return true
 	}
 	switch s {
-	case "strlen", "strat", "substr", "strcat":
+	case "strlen", "strat", "substr", "strcat", "ix":
 		return true
 	}
 	return strings.HasPrefix(s, "tag$") || s == "subtag"
